@@ -447,6 +447,44 @@ func SpecMatch(pattern string, hasWild bool, s string) bool {
 //@   safety[C15]
 //@   loop 1 invariant (rs.query == "" ==> rs.e.base == nil) && (rs.query != "" ==> !has(rs.e.queries, rs.query))
 
+// --- adding a subscriber (C09, C14, C19) -----------------------------------------------------------
+
+//@ func (*ResourceSubscription).enqueueGetResponse
+//@   requires rs != nil && rs.e != nil && rs.e.cache != nil
+//@   ensures[C09] len(rs.e.queue) == old(len(rs.e.queue)) + 1
+//@   assigns rs.e.queue, elems(rs.e.queue)
+//@   safety[C15]
+
+// The queued step of addSubscriber: a get request for the resource ("get."+name, query only in
+// the payload) is issued only for a resource that has not been requested yet, which then counts
+// as requested; a failed resource gives the subscriber's use back and reports the error without
+// registering the subscriber; a loaded resource is handed over with the subscriber registered.
+//@ func (*EventSubscription).addSubscriber
+//@   requires e != nil && e.cache != nil && e.cache.mq != nil && sub != nil && (t != nil ==> predThrottleInv(t))
+//@   ensures[C09] len(e.queue) == old(len(e.queue)) + 1
+//@   safety[C15]
+//@ closure (*EventSubscription).addSubscriber#1
+//@   requires e != nil && e.cache != nil && e.cache.mq != nil && sub != nil
+//@   assumes predEventSubOK(e) && (forall x *ResourceSubscription :: x.state <= stateModel && (x.state == stateError ==> x.err != nil && x.subs == nil)) && (t != nil ==> predThrottleInv(t))
+//@   assert[C09,C14] e.cache.mq.SendRequest#1: rs.state == stateRequested && arg0 == "get." + e.ResourceName && has(rs.subs, sub)
+//@   assert[C09,C19] t.Add#1: rs.state == stateRequested && has(rs.subs, sub)
+//@   assert[C09] sub.Loaded#1: arg0 == nil && arg1 != nil && rs.state == stateError && e.count == old(e.count) - 1 && !has(rs.subs, sub)
+//@   assert[C09] sub.Loaded#2: arg0 == rs && arg1 == nil && (rs.state == stateModel || rs.state == stateCollection) && has(rs.subs, sub) && e.count == old(e.count)
+//@   safety[C15]
+//@ closure (*EventSubscription).addSubscriber#2
+//@   requires rs != nil && rs.e != nil && rs.e.cache != nil
+//@   ensures[C09] callcount("enqueueGetResponse") == old(callcount("enqueueGetResponse")) + 1
+//@ closure (*EventSubscription).addSubscriber#3
+//@   requires e != nil && e.cache != nil && e.cache.mq != nil && rs != nil && rs.e != nil && rs.e.cache != nil && t != nil && subj == "get." + e.ResourceName
+//@   ensures[C09,C19] callcount("SendRequest") == old(callcount("SendRequest")) + 1
+//@   assert[C14] e.cache.mq.SendRequest#2: arg0 == "get." + e.ResourceName
+//@   assigns nothing
+//@ closure (*EventSubscription).addSubscriber#4
+//@   requires rs != nil && rs.e != nil && rs.e.cache != nil && t != nil
+//@   assumes predThrottleInv(t) && t.running > 0
+//@   ensures[C19] callcount("Done") == old(callcount("Done")) + 1
+//@   ensures[C09] callcount("enqueueGetResponse") == old(callcount("enqueueGetResponse")) + 1
+
 // --- the per-resource work queue (C03, C13) ------------------------------------------------------
 
 // processQueue runs, under the entry's mutex, first the pending unlock callbacks and then the
